@@ -642,8 +642,55 @@ func c04EqMatrix(w *run.Worker, d dctx) {
 	}
 }
 
+// c04SliceAgain: one slice / index expression evaluated again in the next round of a loop with other
+// bounds (signs, magnitudes beyond the length, omitted-equivalents) and other objects (a list, then a
+// string): every evaluation is decided by the values of that round.
+func c04SliceAgain(w *run.Worker, d dctx) {
+	I, S, Id := rt.Int, rt.Str, rt.Id
+	objs := []nodeFn{func() *rt.Node { return rt.List(I(0), I(1), I(2), I(3), I(4)) }, func() *rt.Node { return S("abcde") }}
+	seqs := [][]int64{{1, -2, 7}, {-7, 0, 2}, {3, 3, -1}, {-1, 1, -5}, {5, -6, 4}}
+	forms := []func(v *rt.Node) *rt.Node{
+		func(v *rt.Node) *rt.Node { return rt.Slice(Id("a"), v, nil, nil, false) },
+		func(v *rt.Node) *rt.Node { return rt.Slice(Id("a"), nil, v, nil, false) },
+		func(v *rt.Node) *rt.Node { return rt.Slice(Id("a"), nil, nil, v, true) },
+		func(v *rt.Node) *rt.Node { return rt.Slice(Id("a"), v, v, nil, false) },
+		func(v *rt.Node) *rt.Node { return rt.Slice(Id("a"), I(1), I(4), v, true) },
+		func(v *rt.Node) *rt.Node { return rt.Slice(Id("a"), v, I(1), I(-1), true) },
+		func(v *rt.Node) *rt.Node { return rt.Index("a", v) },
+	}
+	for oi, o := range objs {
+		for _, seq := range seqs {
+			for fi, f := range forms {
+				if fi == 6 && oi == 1 {
+					continue // strings are not indexable
+				}
+				for mode := 0; mode < 2; mode++ {
+					if !w.Take() {
+						continue
+					}
+					var stmts []*rt.Node
+					if mode == 0 {
+						// the bounds change from round to round
+						stmts = []*rt.Node{rt.Assign("=", Id("a"), o()), rt.ForIn("v", rt.List(I(seq[0]), I(seq[1]), I(seq[2])), rt.Block(rt.Call("p", f(Id("v")))))}
+					} else {
+						// the object changes from round to round (list, string, shorter list)
+						stmts = []*rt.Node{rt.ForIn("a", rt.List(objs[oi](), objs[1-oi](), rt.List(I(9))), rt.Block(rt.Call("p", f(I(seq[0])))))}
+						if fi == 6 {
+							continue
+						}
+					}
+					p := &Prog{Scripts: map[string][]*rt.Node{"s.p": stmts}, Main: "s.p", Point: PointSpec{Meas: "m"}}
+					w.Eval()
+					c04Report(w, d, "slice-again", p, d.diff(p), "")
+				}
+			}
+		}
+	}
+}
+
 func c04Run(w *run.Worker) {
 	d := dctx{id: "C04", diff: Differential}
+	c04SliceAgain(w, d)
 	c04LenIn(w, d)
 	c04EqMatrix(w, d)
 	c04Reeval(w, d)
